@@ -1130,7 +1130,7 @@ static void run_multi8(Json& js, vh::Rng& rng, int lmmax, bool audio, int shard,
     std::vector<std::pair<int, int>> ratios;
     for (int L = 1; L <= lmmax; ++L) {
         for (int M = 1; M <= lmmax; ++M) {
-            if (std::gcd(L, M) == 1 && !(L == 1 && M == 1)) {
+            if (std::gcd(L, M) == 1) {   // (1, 1) too: the classes accept the trivial ratio
                 ratios.emplace_back(L, M);
             }
         }
@@ -1155,7 +1155,7 @@ static void run_multi8(Json& js, vh::Rng& rng, int lmmax, bool audio, int shard,
                 nh = (int)rng.range(2, 5);   // very short filters: shorter than the rate change
             }
             auto h = sym_taps(rng, nh, &Ssum);
-            const int kind = (L == 1) ? 0 : (M == 1) ? 1 : 2;
+            const int kind = (L == 1 && M == 1) ? rep % 3 : (L == 1) ? 0 : (M == 1) ? 1 : 2;
             for (int wrap = 0; wrap < 2; ++wrap) {   // the class itself and the FIRResampler wrapper (unreduced ratio)
                 const int mul = wrap ? (int)rng.range(1, 3) : 1;
                 Factory fac = f_multi(wrap ? 3 : kind, L * mul, M * mul, h, Ssum);
@@ -1283,8 +1283,30 @@ static void run_resample(Json& js, vh::Rng& rng, long budget, int pqmax) {
             }
             (void)err0;
         }
+        // resample() is a function of its arguments: a second call at the same ratio (and prototype) on other data - half of them
+        // a whole number of q-blocks long - returns the same samples whether it follows the first call directly or a call at
+        // another ratio
+        bool hist = true;
+        if (pr != qr) {
+            const int len2 = rng.coin() ? q * mul * (int)rng.range(1, 40) : (int)rng.range(1, 600);
+            arr_real x2(len2);
+            for (int i = 0; i < len2; ++i) {
+                x2[i] = rng.gauss();
+            }
+            arr_real ya, yb;
+            vh::outcome([&] {
+                ya = custom ? resample(x2, p * mul, q * mul, hc) : resample(x2, p * mul, q * mul);
+                (void)resample(x2, p * mul + 1, q * mul + 2);
+                yb = custom ? resample(x2, p * mul, q * mul, hc) : resample(x2, p * mul, q * mul);
+            });
+            hist = ya.size() == yb.size();
+            for (int i = 0; hist && i < ya.size(); ++i) {
+                hist = std::memcmp(&ya[i], &yb[i], sizeof(double)) == 0;
+            }
+        }
         js.begin("Resample").num("p", p * mul).num("q", q * mul).num("len", len).str("o", o).num("outlen", y.size())
-          .boolean("same", same).boolean("finite", finite).boolean("probe", useprobe).num("shift", shift).num("custom", custom).end();
+          .boolean("same", same).boolean("finite", finite).boolean("probe", useprobe).num("shift", shift).num("custom", custom)
+          .boolean("hist", hist).end();
         // band-limiting: content between the new and the old Nyquist frequency must not come through.  Only where that band is
         // much wider than the default design's transition (rate reduced to 2/3 or less) and away from its lower edge; the
         // unchanged tree attenuates such tones by 59 dB or more, 40 dB is required.
